@@ -151,6 +151,14 @@ pub fn sigs() -> Vec<Sig> {
         s(vec![o(Int), r(Str, Int)], t(&[o(Int), r(Str, Int)])),
         s(vec![Int, Unit], Int),
         s(vec![n("Point"), n("Color")], t(&[n("Point"), n("Color")])),
+        // empty containers next to non-empty siblings (a value left on the stack corrupts the NEXT conversion)
+        s(vec![a(Int), a(Int)], t(&[a(Int), a(Int)])),
+        s(vec![Int, a(Str)], t(&[Int, a(Str)])),
+        s(vec![a(Str), Str], t(&[a(Str), Str])),
+        s(vec![t(&[Int, a(Int)])], t(&[Int, a(Int)])),
+        s(vec![t(&[a(Int), Int, a(Str)])], t(&[a(Int), Int, a(Str)])),
+        s(vec![a(t(&[a(Int), Str]))], a(t(&[a(Int), Str]))),
+        s(vec![o(a(Int)), a(o(Str))], t(&[o(a(Int)), a(o(Str))])),
         // arity 3
         s(vec![Int, Float, Str], t(&[Int, Float, Str])),
         s(vec![Str, Unit, Int], t(&[Str, Int])),
@@ -161,6 +169,7 @@ pub fn sigs() -> Vec<Sig> {
         s(vec![Str, Float, Bool, Int], t(&[Str, Float, Bool, Int])),
         s(vec![Unit, a(Float), Unit, r(Int, Int)], t(&[a(Float), r(Int, Int)])),
         s(vec![n("Shape"), a(n("Point")), o(n("Color")), Str], t(&[n("Shape"), a(n("Point")), o(n("Color")), Str])),
+        s(vec![a(Int), a(a(Str)), Str, a(Float)], t(&[a(Int), a(a(Str)), Str, a(Float)])),
     ]
 }
 
